@@ -389,15 +389,28 @@ def _axis(sel, labels):
     the edge, a positive step k takes every k-th."""
     n = len(labels)
     if isinstance(sel, slice):
-        st = 0 if sel.start is None else _resolve(sel.start, labels)
-        sp = n - 1 if sel.stop is None else _resolve(sel.stop, labels)
         k = 1 if sel.step is None else sel.step
         if isinstance(k, bool) or not isinstance(k, int):
             raise Reject('bad step')
-        if k < 1:
-            raise Unjudged('non-positive step')
+        if k == 0:
+            raise Reject('zero step')
+        if k < 0:
+            # outside the documented grammar ("a positive step k"): either it is refused, or it is a step like any other -
+            # both end points included, walking backwards, open ends at the edges (see has_backwards_step)
+            st = n - 1 if sel.start is None else _resolve(sel.start, labels)
+            sp = 0 if sel.stop is None else _resolve(sel.stop, labels)
+            return list(range(st, sp - 1, k))
+        st = 0 if sel.start is None else _resolve(sel.start, labels)
+        sp = n - 1 if sel.stop is None else _resolve(sel.stop, labels)
         return list(range(st, sp + 1, k))
     return [_resolve(sel, labels)]
+
+
+def has_backwards_step(item) -> bool:
+    """A selector with a negative step: not in the documented grammar, so refusing it is fine; if it is accepted it must select
+    what ref_address says (end points included) - anything else is "selecting something else"."""
+    parts = item if isinstance(item, tuple) else (item,)
+    return any(isinstance(p_, slice) and isinstance(p_.step, int) and not isinstance(p_.step, bool) and p_.step < 0 for p_ in parts)
 
 
 class Unjudged(Exception):
